@@ -68,7 +68,7 @@ ASSUMPTIONS = ["exact rational arithmetic (dyadic inputs; Python floats compared
                "Theta: only the wrapped SES share (forecast minus the drift the forecaster reports) is compared with statsmodels",
                "adapters: horizons not earlier than the first observation (statsmodels wraps negative positions)"]
 RULE = ("fixed-order small scope: every (strategy, n<=14, sp<=4, window_length in {None} u 1..n) x (full horizon {-3..9}, every single step, "
-        "random subsets) x (without / with NaN), all non-empty subsets of {-3..9} for 4 configurations (quick: seed-rotated 1/12 resp. 1/32 slice); "
+        "random subsets) x (without / with NaN), all non-empty subsets of {-3..9} for 3 configurations (quick: seed-rotated 1/12 resp. 1/32 slice); "
         "structured random larger cases (n<60, sp<=12); malformed stream; trend values for degree 0..4, design matrices degree 0..5; "
         "object history (about 1/3 of the naive and 1/2 of the trend/design cases: fit on other data with other parameters, predict, set_params, fit, predict; compared with the textbook value AND a fresh object), second predict and caller-series snapshot on every naive/trend case; "
         "statsmodels-backed forecasters over the option product (ExponentialSmoothing: 5 trend spellings x damped x 5 seasonal spellings x initialisation x sp, Box-Cox, known initial states; AutoETS: error x trend x damped x seasonal x initialisation, maxiter; Theta: initial_level x sp): recorded constructor/fit keyword arguments vs the parameters of the forecaster, forecasts vs the statsmodels model built directly with the same options. distinct by driver line; non-trivial = a forecast with at least one finite value")
@@ -959,7 +959,7 @@ def gen_cases(tier, rng):
             if thorough or rng.random() < 0.5:
                 cases.append(_naive(rng, st, sp, wl, n, fh, nan=True))
     # 2. every non-empty subset of {-3..9} for a few configurations
-    subsets_cfgs = [("last", 3, None, 7), ("mean", 3, 6, 8), ("mean", 2, 5, 7), ("drift", 1, 4, 6)]
+    subsets_cfgs = [("last", 3, None, 7), ("mean", 3, 7, 8), ("drift", 1, 4, 6)]
     allsub = [list(s) for r in range(1, len(UNIVERSE) + 1) for s in itertools.combinations(UNIVERSE, r)]
     for ci, (st, sp, wl, n) in enumerate(subsets_cfgs):
         for si, fh in enumerate(allsub):
@@ -967,7 +967,7 @@ def gen_cases(tier, rng):
                 continue
             cases.append(_naive(rng, st, sp, wl, n, fh, nan=rng.random() < 0.2))
     # 3. structured random, larger
-    for _ in range(6000 if thorough else 700):
+    for _ in range(4000 if thorough else 700):
         st = rng.choice(["last", "mean", "mean", "drift"])
         n = rng.choice([rng.randrange(1, 15), rng.randrange(15, 60)])
         sp = rng.choice([1, rng.randrange(2, 13)])
